@@ -6,6 +6,12 @@
 (* (worker_utils.designed_network, spectrum_assignment.build_oms_list, request.requests_aggregation,          *)
 (*  compute_path_dsjctn, compute_path_with_disjunction, pth_assign_spectrum, ResultElement).                  *)
 (* The code runs the stages batch-wise: every request is routed before any is propagated, and so on.          *)
+(* Load itself is refined by three function-shaped modules (one input -> one outcome, no state):              *)
+(*   NetworkLoad       topology document + library -> network graph            (json_io.network_from_json)     *)
+(*   RequestResolution service entry + library     -> PathRequest / refusal    (json_io.requests_from_json)    *)
+(*   SpectrumDocument  spectrum document / request -> launched carriers        (json_io._spectrum_from_json,   *)
+(*                                                                               request.propagate up to filter)  *)
+(* and Documents / Workbook say when two documents (legacy / YANG / workbook) are the same input.               *)
 (* The state is abstract: what matters here is WHICH stage may change WHAT, and what a blocked request may    *)
 (* still acquire.  Details of each stage live in DesignStructure/DesignPower (Design), OmsMap (BuildOms),     *)
 (* Routing (Route), Feasibility/PowerLedger/LineElements (Propagate), SpectrumAssign (Assign), Planning       *)
